@@ -59,7 +59,7 @@ func ruleC05R1(c *Ctx) {
 	n = 0
 	for _, op := range c.chanFieldOps(fCIBChannel) {
 		n++
-		c.check(anchorName(op.In.Parent()) == aCIBFlush && op.Kind == "send", "C05.R1", op.In.Parent(), op.Kind+" on channelInputBuffer.Channel", op.In.Pos(),
+		c.check(ownedBy(op.In.Parent(), aCIBFlush) && op.Kind == "send", "C05.R1", op.In.Parent(), op.Kind+" on channelInputBuffer.Channel", op.In.Pos(),
 			"records enter a pipeline channel only through channelInputBuffer.Flush", "the pipeline channel is written outside channelInputBuffer.Flush")
 	}
 	c.floor("C05.R1", "operations on channelInputBuffer.Channel", n, 1)
@@ -74,7 +74,7 @@ func ruleC05R1(c *Ctx) {
 			for _, cal := range c.P.callees(g) {
 				if isAnchor(cal, aBaseRun) {
 					ng++
-					c.check(anchorName(fn) == aWorkerStart, "C05.R1", fn, "go _baseRun", g.Pos(), "the worker goroutine is launched only by Start", "a second worker goroutine on the same channel reorders records")
+					c.check(ownedBy(fn, aWorkerStart), "C05.R1", fn, "go _baseRun", g.Pos(), "the worker goroutine is launched only by Start", "a second worker goroutine on the same channel reorders records")
 				}
 			}
 		}
@@ -150,7 +150,7 @@ func ruleC05R1(c *Ctx) {
 	// ackerChan: received only by the acknowledger (and drained after it ended)
 	for _, op := range c.chanFieldOps(fAckerChan) {
 		if op.Kind == "recv" || op.Kind == "range" {
-			c.check(anchorName(op.In.Parent()) == aRunAcker, "C05.R1", op.In.Parent(), op.Kind+" on ackerChan", op.In.Pos(), "only the acknowledger receives from ackerChan", "a second receiver of ackerChan breaks ACK order")
+			c.check(ownedBy(op.In.Parent(), aRunAcker), "C05.R1", op.In.Parent(), op.Kind+" on ackerChan", op.In.Pos(), "only the acknowledger receives from ackerChan", "a second receiver of ackerChan breaks ACK order")
 		}
 	}
 }
@@ -393,7 +393,7 @@ func ruleC05R6(c *Ctx) {
 	for _, fn := range c.P.universe {
 		for _, st := range storesToField(fn, "base.LogChunk.ID") {
 			n++
-			c.check(allowed[anchorName(fn)], "C05.R6", fn, "store to LogChunk.ID", st.Pos(), "chunk ids are only assigned by the chunk finalizers (from the generator) and by the recovery scan (from the file name)", "a chunk ID is assigned outside the finalizers / recovery scan")
+			c.check(ownedByAny(fn, allowed), "C05.R6", fn, "store to LogChunk.ID", st.Pos(), "chunk ids are only assigned by the chunk finalizers (from the generator) and by the recovery scan (from the file name)", "a chunk ID is assigned outside the finalizers / recovery scan")
 		}
 	}
 	c.floor("C05.R6", "stores to LogChunk.ID", n, 3)
